@@ -225,7 +225,7 @@ def neutralise(prog, trigger_forms, replacement):
 
 
 def pred_finally_supersedes(prog):
-    """A finally block of the function's own scope contains return / raise / yield / break /
+    """A finally block of the function's own scope contains return / raise / assert / yield / break /
     continue: it can supersede a return (or exception) that is already under way."""
     fdef = _find_f(ast.parse(prog.src))
     for n in _own_nodes(fdef):
@@ -233,7 +233,7 @@ def pred_finally_supersedes(prog):
             stack = list(n.finalbody)
             while stack:
                 m = stack.pop()
-                if isinstance(m, (ast.Return, ast.Raise, ast.Yield, ast.YieldFrom, ast.Break, ast.Continue)):
+                if isinstance(m, (ast.Return, ast.Raise, ast.Assert, ast.Yield, ast.YieldFrom, ast.Break, ast.Continue)):
                     return True
                 for ch in ast.iter_child_nodes(m):
                     if not isinstance(ch, (ast.FunctionDef, ast.Lambda, ast.ClassDef)):
